@@ -99,6 +99,14 @@ def run_case(kind, p):
     r = np.sqrt((yg - cy) ** 2 + (xg - cx) ** 2)
     eps = 1e-9
     try:
+        # earlier calls in the same process, with the same geometry (centre, image size) and other radii / bin counts: the
+        # clauses are about each call on its own, whatever was asked before
+        for pr in p.get("prior", []):
+            if pr.get("disk"):
+                masks.circular(centerX=cx, centerY=cy, imageSizeX=sx, imageSizeY=sy, radius=pr["R"], antialiased=True)
+            else:
+                masks.radial_bins(cx, cy, sx, sy, radius=pr["R"], radius_inner=pr["ri"], n_bins=pr["n"],
+                                  use_sparse=bool(pr.get("sparse", False)))
         dense = masks.radial_bins(cx, cy, sx, sy, radius=R, radius_inner=ri, n_bins=n, use_sparse=False)
         sp = masks.radial_bins(cx, cy, sx, sy, radius=R, radius_inner=ri, n_bins=n, use_sparse=True)
         auto = masks.radial_bins(cx, cy, sx, sy, radius=R, radius_inner=ri, n_bins=n)
@@ -172,6 +180,18 @@ def search(ctx, boost=1, focus=()):
             p.update({"sy": 40, "sx": 44, "ri": 0.0, "n": 1, "R": float(np.round(rng.uniform(1.5, 9), 2))})
             p.update({"cy": float(np.round(rng.uniform(p["R"] + 1, 38 - p["R"]), 3)),
                       "cx": float(np.round(rng.uniform(p["R"] + 1, 42 - p["R"]), 3))})
+        if k % 4 == 3:
+            # call history: a call with an inner radius below 0.5 (centre pixel patched) before one with an inner radius in
+            # [0.5, 1) or any other, same centre and image size
+            p["prior"] = [{"R": float(np.round(rng.uniform(1.5, 9), 2)), "ri": float(rng.choice([0.0, 0.2, 0.45])),
+                           "n": int(rng.integers(1, 5)), "sparse": bool(rng.integers(0, 2)), "disk": bool(k % 8 == 3)}]
+            if k % 8 == 7:
+                w_ = (p["R"] - p["ri"]) / p["n"]
+                p["ri"] = float(rng.choice([0.5, 0.7, 0.95]))
+                p["R"] = p["ri"] + p["n"] * w_
+                if p["sy"] > 2 and p["sx"] > 2:
+                    p["cy"], p["cx"] = float(rng.integers(0, p["sy"])), float(rng.integers(0, p["sx"]))
+            ctx.count("with_history")
         cases.append(p)
     for p in cases:
         ctx.oracle_case("radial_bins", p, run_case("radial_bins", p),
